@@ -450,7 +450,8 @@ def generic_mutation(r: random.Random, root: Any) -> str | None:
                 o.reverse()
                 o[0] = o[0] + (5, 5, 5)
                 return f'{p}: list reversed, item replaced'
-            if o:
+            # only lists whose length is free (a Side needs 3 planes, size*size vertices, 4 multiblend colours)
+            if o and p.endswith(('.outputs', '.solids', '.sides', '.child_groups', '.strata_points', '._value')):
                 o.pop(r.randrange(len(o)))
                 return f'{p}: list item removed'
         if isinstance(o, set):
